@@ -1,5 +1,6 @@
 import ShootVerif.Drive.Common
 import ShootVerif.Spec.Ctor
+import ShootVerif.Model.TParams
 namespace ShootVerif.Drive
 open ShootVerif.Ctor
 
@@ -45,7 +46,16 @@ def ctorSpec (t : Tree) : List (String × String) :=
     ++ ((leavesTop t).map (·.info.name)).eraseDups.map (fun n =>
         ("sel:" ++ n, match selectPath t n with | some p => pathKey p n | none => "none"))
 
-/-- `(ctor (hasnewin b) (tree M…))` -/
+/-- `(tparams (g (names K V) "constraint" ident|expr) …)` -/
+def parseTParams (p : Sexp) : List TParams.Group :=
+  match p.field? "tparams" with
+  | some (.list (_ :: gs)) => gs.filterMap (fun g => match g with
+      | .list [.atom "g", .list (.atom "names" :: ns), .atom c, .atom k] =>
+        some ⟨ns.filterMap Sexp.asAtom?, c, k == "ident"⟩
+      | _ => none)
+  | _ => []
+
+/-- `(ctor (hasnewin b) (tparams …) (tree M…))` -/
 def ctorCase (id : String) (payload : List Sexp) : List String :=
   let p := Sexp.list (.atom "p" :: payload)
   match p.field? "tree" with
@@ -55,8 +65,10 @@ def ctorCase (id : String) (payload : List Sexp) : List String :=
       let hin := match p.field? "hasnewin" with
         | some (.list [_, .atom "true"]) => true
         | _ => false
-      let reg := if hin then "Leak" else region t
-      both id (ctorModel t hin) (ctorSpec t) reg
+      let gs := parseTParams p
+      let base := if hin then "Leak" else region t
+      let reg := if base != "Out" && base != "Leak" && gs.any (fun g => !g.isIdent) then "F_tparamNonIdent" else base
+      both id (ctorModel t hin ++ [("tparams", TParams.typeParamList gs)]) (ctorSpec t ++ [("tparams", TParams.specList gs)]) reg
     | none => err id "bad-tree"
   | _ => err id "bad-ctor-case"
 
